@@ -20,6 +20,7 @@ Op(mn, sh, sfx, e) == [k |-> "op", mn |-> mn, shape |-> sh, sfx |-> sfx, e |-> e
 Star(a) == [k |-> "stareq", e |-> N(a)]
 At(a) == [k |-> "ateq", e |-> N(a)]
 
+IpsRecs == <<[off |-> 3145728, data |-> <<1, 2>>, rle |-> FALSE], [off |-> 3145744, data |-> <<85, 85, 85>>, rle |-> TRUE]>>
 \* token -> statement (open/close tokens are handled by Tree)
 Stmt(t) ==
     CASE t = "La" -> Lab("a") [] t = "Lb" -> Lab("b") [] t = "Lc" -> Lab("c")
@@ -46,6 +47,8 @@ Stmt(t) ==
       [] t = "AP2nk" -> [k |-> "apply", n |-> "m2", as |-> <<N(7), [k |-> "code", b |-> <<Dat("db", N(9))>>]>>]
       \* a named scope with one label, as one statement
       [] t = "Nla" -> [k |-> "scope", n |-> "n", b |-> <<Lab("a")>>]
+      [] t = "IPS" -> [k |-> "ips", file |-> "p1.ips", delta |-> N(512), recs |-> IpsRecs]
+      [] t = "IPSc" -> [k |-> "ips", file |-> "p1.ips", delta |-> I("c"), recs |-> IpsRecs]
       [] t = "SPa" -> [k |-> "splice", p |-> "a"]
       [] t = "AP2na" -> [k |-> "apply", n |-> "m2", as |-> <<N(1), I("a")>>]      \* second argument named like the first parameter
       [] t = "AP2ab" -> [k |-> "apply", n |-> "m2", as |-> <<I("b"), N(2)>>]
@@ -82,6 +85,8 @@ AlphaSeq ==
       [] Family = "assignleak" -> <<"C3", "C10", "FOR02{", "{", "M0{", "AP0", "}", "DLc", "FOR0c{", "IFc{", "DB">>
       \* a loop variable named like an outer 16-bit constant: the body's size differs between the passes
       [] Family = "shadowloop2" -> <<"C1234", "FORc02{", "}", "LDc", "La", "DLa", "DB">>
+      \* .include_ips among position moves, scopes, loops; delta a literal or a constant defined before / after
+      [] Family = "ipsfam" -> <<"IPS", "IPSc", "C3", "DB", "S3", "{", "}", "FOR02{", "La", "DLa", "A1">>
       [] Family = "tiny"   -> <<"La", "DB", "DLa", "{", "}", "S3">>
 Alphabet == Range(AlphaSeq)
 TokIndex(t) == CHOOSE j \in 1..Len(AlphaSeq) : AlphaSeq[j] = t
